@@ -278,3 +278,112 @@ class C05(NlpCheck):
             if not (abs(val - objs[-1]) <= 1e-8 * max(1.0, abs(val))) and np.isfinite(val):
                 self.slice_ok["sol.value(objective)-vs-solver"] = False
                 self.violation("sol.value(ocp.objective)=%r but the solver minimised %r" % (val, objs[-1]), {"desc": desc}, {"kind": "solver-objective"})
+
+
+ALLGRIDS = FIXED_GRIDS + LOC_GRIDS
+
+
+@register
+class C06(NlpCheck):
+    pid = "C06"
+    slices = ["grid-rows-and-times", "minmax-options", "density-grids"]
+    tags = ("grid",)
+    whole = True
+    extra_phys = True
+    profiles = [
+        ("grid-rows-and-times",
+         {'methods': ALLM + [('ss', 'euler')], 'grids': ALLGRIDS, 'horizon': HORIZ, 'obj_kinds': ['at_tf'], 'ncons': (0, 1),
+          'Ns': [1, 2, 3, 4, 5, 6, 7, 8], 'Ms': [1, 2, 3, 4], 'degrees': [1, 2, 3], 'nxs': [1, 2]}, 50, 600),
+        ("minmax-options",
+         {'methods': ALLM + [('ss', 'rk')], 'grids': ALLGRIDS, 'horizon': ['num', 'freeT', 'freeboth', 'param'], 'obj_kinds': ['at_tf'], 'ncons': (0, 0),
+          'minmax_prob': 1.0, 'Ns': [1, 2, 3, 4, 5], 'Ms': [1, 2], 'degrees': [1, 2], 'nxs': [1]}, 40, 400),
+        ("density-grids",
+         {'methods': [('ms', 'rk'), ('dc', 'rk'), ('ss', 'euler')], 'grids': ['density_poly', 'dense_edges', 'dense_edges'], 'horizon': ['num', 'freeT'],
+          'obj_kinds': ['at_tf'], 'ncons': (0, 0), 'Ns': [2, 3, 3, 4, 5], 'Ms': [1, 2], 'degrees': [1, 2], 'nxs': [1]}, 12, 80),
+    ]
+
+    def explanation(self):
+        return ("theorems: uniform/geometric node locations, endpoints, monotonicity, constant ratio, last/first = g^(N-1); integrator "
+                "split into M equal steps, DT and DT_control at every point; localized formulations reproduce the partition wherever "
+                "their coupling rows hold; FreeGrid sums to T; min/max rows bound their interval; coupling rows belong to the NLP of "
+                "every method. correspondence: grid rows (equality incl. nothing extra), control/integrator time vectors, sampled "
+                "t/DT/DT_control vs model")
+
+    def case_features(self, desc, kind, detail):
+        f = NlpCheck.case_features(self, desc, kind, detail)
+        g = desc['method']['grid']
+        f['minmax'] = ('min' in g) or ('max' in g)
+        f['localized'] = bool(g.get('localize_T') or g.get('localize_t0') or g['kind'] == 'free')
+        return f
+
+    def density_check(self, desc):
+        """numeric (float) check, not a theorem: nodes of Density/DenseEdges grids equidistribute the density"""
+        g = desc['method']['grid']
+        N = desc['method']['N']
+        nz = g['nz_runtime']
+        import scipy.integrate as si
+        if g['kind'] == 'density_poly':
+            a, b_, c = [float(v) for v in g['coef']]
+            F = lambda t: a * t + b_ * t * t / 2 + c * t ** 3 / 3
+        else:
+            import casadi as ca
+            interp = ca.interpolant('interp', 'bspline', [[0.0, g['edge_frac'], 1 - g['edge_frac'], 1.0]],
+                                    [g['multiplier'], 1.0, 1.0, g['multiplier']], {"algorithm": "smooth_linear"})
+            F = lambda t: si.quad(lambda s_: float(interp(s_)), 0, t, limit=200)[0]
+        tot = F(1.0)
+        self.count("density-grid-checked")
+        if abs(nz[0]) > 1e-12 or abs(nz[-1] - 1) > 1e-12:
+            return "endpoints %r %r" % (nz[0], nz[-1])
+        for k in range(N + 1):
+            if abs(F(nz[k]) / tot - k / N) > 1e-5:
+                return "node %d at %r carries cumulative density %r, expected %r" % (k, nz[k], F(nz[k]) / tot, k / N)
+        return None
+
+    def extra_compare(self, desc, res):
+        out = []
+        if desc['method']['grid']['kind'] in ('density_poly', 'dense_edges'):
+            msg = self.density_check(desc)
+            if msg:
+                return [("density grid is not equidistributed: " + msg, self.case_features(desc, 'density', msg))]
+        dl = Mo.desc_lines(desc)
+        m = desc['method']
+        N, M = m['N'], m['M']
+        for phys, mags in zip(res.phys, res.mags):
+            self.driver.send(dl)
+            self.driver.send(Mo.point_lines(desc, phys))
+            lines = self.driver.run('grid')
+            got = {}
+            intg = {}
+            for l in lines:
+                t = l.split()
+                if t[0] == 'intg':
+                    intg[int(t[1])] = [Mo.frac(v) for v in t[2:]]
+                else:
+                    got[t[0]] = [Mo.frac(v) for v in t[1:]]
+            flat_intg = []
+            for k in range(N):
+                flat_intg += intg[k][:-1]
+            flat_intg.append(intg[N - 1][-1])
+
+            def cmp(name, model_vals, key, col=True):
+                vals = [v for c in phys[key] for v in c]
+                mg = [v for c in mags[key] for v in c]
+                if len(vals) != len(model_vals):
+                    return "%s: length %d vs model %d" % (name, len(vals), len(model_vals))
+                for i, (a, b_, g_) in enumerate(zip(model_vals, vals, mg)):
+                    if not close(a, b_, max(g_, 1.0)):
+                        return "%s[%d]: model %s impl %s" % (name, i, float(a), float(b_))
+                return None
+            # time vectors come back as one column (n x 1); sampled scalars as columns of a 1 x n row
+            checks = [("control time vector", got['tau'], 'tgrid', False), ("integrator time vector", flat_intg, 'tintg', False),
+                      ("sampled ocp.t on the integrator grid", flat_intg, 'tsamp', True),
+                      ("DT on control grid", got['dtnode'], 'DTnode', True), ("DT_control on control grid", got['dtcnode'], 'DTcnode', True),
+                      ("DT on integrator grid", got['dtstep'] + [got['dtnode'][-1]], 'DTstep', True),
+                      ("DT_control on integrator grid", got['dtcstep'] + [got['dtcnode'][-1]], 'DTcstep', True)]
+            for name, mv, key, col in checks:
+                msg = cmp(name, mv, key, col)
+                if msg:
+                    out.append(("time grid differs from the declared partition: " + msg, self.case_features(desc, 'times', name)))
+                    return out
+        self.count("time-vectors-compared", 7)
+        return out
